@@ -84,6 +84,9 @@ type PairRun struct {
 	keptCopy  []byte
 	keptModel *Model
 	keptAge   int
+	// the dump object that was passed to LoadEntities, and its content at that time
+	loaded     *ecs.EntityDump
+	loadedCopy []byte
 }
 
 // Outcome implements wx.Run.
@@ -343,6 +346,8 @@ func (r *PairRun) applyLoad(variant int) wx.Result {
 	if pv := catch(func() { b.w.LoadEntities(&back) }); pv != nil {
 		return r.fail("load:panic", fmt.Sprintf("LoadEntities into a fresh or reset world panicked: %v", pv))
 	}
+	r.loaded = &back
+	r.loadedCopy, _ = json.Marshal(&back)
 	b.m = a.m.clone()
 	for i := range b.m.Slots {
 		b.m.Slots[i].Has = 0
@@ -352,8 +357,12 @@ func (r *PairRun) applyLoad(variant int) wx.Result {
 	// every handle ever issued gets the same Alive answer
 	for i := range a.m.Slots {
 		h := a.m.Slots[i].H
-		if w.Alive(h) != b.w.Alive(h) {
-			return r.fail("load:alive", fmt.Sprintf("Alive(%v) is %t in the original and %t in the loaded world", h, w.Alive(h), b.w.Alive(h)))
+		var la bool
+		if pv := catch(func() { la = b.w.Alive(h) }); pv != nil {
+			return r.fail("load:alive-panic", fmt.Sprintf("Alive(%v) panics in the loaded world (%v); the original answers %t", h, pv, w.Alive(h)))
+		}
+		if w.Alive(h) != la {
+			return r.fail("load:alive", fmt.Sprintf("Alive(%v) is %t in the original and %t in the loaded world", h, w.Alive(h), la))
 		}
 	}
 	// a second dump is identical (at load time)
@@ -414,6 +423,12 @@ func (r *PairRun) Check() *wx.Failure {
 		if f := r.b.Check(); f != nil {
 			f.Msg = "on the fresh/loaded twin world: " + f.Msg
 			return f
+		}
+		if r.cfg.Load && r.loaded != nil {
+			// the dump that was loaded is a value of its own: using the loaded world must not change it
+			if now, _ := json.Marshal(r.loaded); string(now) != string(r.loadedCopy) {
+				return &wx.Failure{Prop: r.cfg.Prop, Sig: "load:dump-aliased", Msg: fmt.Sprintf("the dump passed to LoadEntities changed while the loaded world was used: was %s, is %s", r.loadedCopy, now)}
+			}
 		}
 		if r.cfg.Load {
 			// after continued use: pool state identical
